@@ -11,7 +11,7 @@ from ..core import Sub, build_machine, run_history
 PROP = {
     "id": "C07",
     "level": "fault_enumeration",
-    "technique": "Hypothesis RuleBasedStateMachine reaches file states (table empty / partly filled / full, N in 1..16, images with an unused slot between live blocks); at every 'inject' step EVERY applicable rejection cause x API path (add / replace / setter / remove) x position of the failing element is enumerated, each checked by sha256 of the file before/after and in-memory table vs. independent parse; the history then continues with valid operations under the C03 + C04 + C11 invariants; look-alike block objects are tried on a scratch copy",
+    "technique": "Hypothesis RuleBasedStateMachine reaches file states (table empty / partly filled / full, N in 1..16, images with an unused slot between live blocks); at every 'inject' step EVERY applicable rejection cause x API path (add / replace / setter / remove) x position of the failing element is enumerated, each checked by sha256 of the file before/after and in-memory table vs. independent parse; the history then continues with valid operations under the C03 + C04 + C11 invariants; look-alike block objects are tried on a scratch copy; causes include refusals that depend on process-wide numeric settings and an accepted object spoilt in place and offered again; process-wide settings are compared around every refused call",
     "level_text": ("Fault enumeration over reachable states: the cause list (duplicate type, full table, over-long / non-cp1252 label in the "
                    "first, a middle, the last item, over-long (also by exactly one) / non-cp1252 comment, unsupported format, dates that do not fit the entry, format None, wrong object "
                    "(None, int, str, a track, an array, a dict, an UnusedBlock), absent type for remove / replace, unused slot between live blocks - "
